@@ -1,10 +1,10 @@
 package harness
 
 import (
-	"os"
 	"encoding/json"
 	"fmt"
 	"math/rand"
+	"os"
 	"regexp"
 	"sort"
 	"strings"
@@ -125,7 +125,9 @@ func randJSONConfig(r *rand.Rand, names []string) (string, string) {
 	opt("IgnoreModules", func() interface{} { return some(2, func() interface{} { return pick() }) })
 	opt("IgnoreWildcardModules", func() interface{} { return some(2, func() interface{} { return pick() }) })
 	opt("IgnoreReadFiles", func() interface{} { return some(2, file) })
-	opt("IgnoreErrorTypes", func() interface{} { return some(4, func() interface{} { return []int{-1, 0, 1, 2, 4, 6, 18, 29, 30, 99}[r.Intn(10)] }) })
+	opt("IgnoreErrorTypes", func() interface{} {
+		return some(4, func() interface{} { return []int{-1, 0, 1, 2, 4, 6, 18, 29, 30, 99}[r.Intn(10)] })
+	})
 	opt("OpenErrorTypes", func() interface{} { return some(5, func() interface{} { return 20 + r.Intn(12) }) })
 	opt("IgnoreFileOrFloder", func() interface{} { return some(2, file) })
 	opt("IgnoreFileErr", func() interface{} { return some(2, file) })
@@ -252,6 +254,19 @@ func genC01(seed int64, tier string) *Scenario {
 			sc.Files = append(sc.Files, File{Path: n, Data: Bytes(body)})
 		}
 		sc.Knobs["annlib"] = true
+	}
+	popular := r.Intn(6) == 0
+	if popular {
+		// one global used many times in many small files, and a small ReferenceMaxNum: find-references
+		// and rename reach their limit while most pool workers still hold results
+		names = append(names, "pop_def.lua")
+		sc.Files = append(sc.Files, File{Path: "pop_def.lua", Data: Bytes("popular = 1\nfunction popular_fn(a)\n  return a\nend\n")})
+		for k := 0; k < 3+r.Intn(6); k++ {
+			n := fmt.Sprintf("pop_use%d.lua", k)
+			names = append(names, n)
+			sc.Files = append(sc.Files, File{Path: n, Data: Bytes(strings.Repeat("print(popular)\npopular_fn(popular)\n", 1+r.Intn(4)))})
+		}
+		sc.Knobs["popular"] = true
 	}
 	// configuration file: absent / valid / structured random / hostile / garbage
 	cfgKind := r.Intn(12)
@@ -515,6 +530,24 @@ func genC01(seed int64, tier string) *Scenario {
 		default:
 			sc.Ops = append(sc.Ops, Op{Kind: "deliver"})
 		}
+	}
+	if popular {
+		cfg := fmt.Sprintf(`{"luahelper":{"base":{"ReferenceMaxNum":%d,"ReferenceDefineFlag":%v},"Warn":{"AllEnable":true,"CheckSyntax":true}}}`, 1+r.Intn(6), r.Intn(2) == 0)
+		pre := []Op{{Kind: "config", Params: json.RawMessage(cfg)}, {Kind: "config", Params: json.RawMessage(cfg)}}
+		sc.Ops = append(pre, sc.Ops...)
+		at := func(p string, ps Pos, m string) Op {
+			op := Op{Kind: "req", Method: m, Path: p, Pos: &Pos{ps.Line, ps.Char}, Async: r.Intn(3) == 0}
+			if m == "rename" {
+				op.Arg = "renamed_global"
+			}
+			return op
+		}
+		if _, ok := open["pop_def.lua"]; !ok && content["pop_def.lua"] != nil {
+			sc.Ops = append(sc.Ops, Op{Kind: "open", Path: "pop_def.lua"})
+			open["pop_def.lua"] = content["pop_def.lua"]
+		}
+		sc.Ops = append(sc.Ops, at("pop_def.lua", Pos{0, 2}, "references"), at("pop_use0.lua", Pos{0, 8}, "references"),
+			at("pop_def.lua", Pos{1, 12}, []string{"references", "rename"}[r.Intn(2)]), at("pop_def.lua", Pos{0, 2}, "rename"))
 	}
 	if faulty && r.Intn(3) == 0 {
 		// dial failure must be armed before initialize: emulate by failing the first dials
